@@ -45,11 +45,9 @@ def call_builtin(X, f, args, kwargs):
         return str_model(X, args)
     if obj is bool:
         return VBool(X.truth(args[0])) if args else VBool(False)
-    if obj is sorted or obj is sum or obj is zip or obj is iter or obj is next or obj is getattr or obj is setattr \
-            or obj is hasattr or obj is repr or obj is type:
-        r = X.contract.builtin_hook(X, name, args, kwargs) if hasattr(X.contract, 'builtin_hook') else None
-        if r is not None:
-            return r
+    r = X.contract.builtin_hook(X, name, args, kwargs) if hasattr(X.contract, 'builtin_hook') else None
+    if r is not None:
+        return r
     raise Unsupported(f'call of builtin/global {name}')
 
 
